@@ -402,6 +402,47 @@ fn decoders(seed: u64) {
         }
         writeln!(out, "N len3_cases {} differing {}", n, bad).unwrap();
     }
+    // String::drain under the iterator methods that skip or fold (nth, rev, last, count, fold, size
+    // hints before and after partial consumption), on every boundary range of a text with 1-4 byte
+    // characters, against std
+    {
+        let text = "aé€𝄞z";
+        let cuts: Vec<usize> = (0..=text.len()).filter(|i| text.is_char_boundary(*i)).collect();
+        let mut bad = 0usize;
+        let mut cases = 0usize;
+        macro_rules! run {
+            ($st:expr, $a:expr, $b:expr, $k:expr, $how:expr) => {{
+                let mut st = $st;
+                let got: String = match $how {
+                    0 => st.drain($a..$b).nth($k).into_iter().collect(),
+                    1 => st.drain($a..$b).rev().nth($k).into_iter().collect(),
+                    2 => st.drain($a..$b).last().into_iter().collect(),
+                    3 => format!("{}", st.drain($a..$b).count()),
+                    4 => st.drain($a..$b).fold(String::new(), |mut acc, c| { acc.push(c); acc.push('|'); acc }),
+                    5 => { let mut d = st.drain($a..$b); let h0 = d.size_hint(); let x = d.next(); let y = d.next_back(); let h1 = d.size_hint(); format!("{:?}{:?}{:?}{:?}", h0, x, y, h1) }
+                    6 => st.drain($a..$b).skip($k).step_by(2).collect(),
+                    _ => st.drain($a..$b).rev().collect(),
+                };
+                (got, st.as_str().to_string())
+            }};
+        }
+        for (i, a) in cuts.iter().enumerate() {
+            for b in &cuts[i..] {
+                for k in 0..4usize {
+                    for how in 0..8 {
+                        let rb = run!(BString::from_str_in(text, &bump), *a, *b, k, how);
+                        let rs = run!(String::from(text), *a, *b, k, how);
+                        cases += 1;
+                        if rb != rs {
+                            bad += 1;
+                            if bad <= 2 { writeln!(out, "X forwarding_drain_adaptors range={}..{} k={} how={} bump={:?} std={:?}", a, b, k, how, rb, rs).unwrap(); }
+                        }
+                    }
+                }
+            }
+        }
+        writeln!(out, "N drain_adaptor_cases {} differing {}", cases, bad).unwrap();
+    }
     // from_utf16_in: every single unit, structured pairs
     let mut u16case = |v: &[u16]| {
         let b = BString::from_utf16_in(v, &bump);
